@@ -287,6 +287,157 @@ class Run:
         os.remove(path)
         return res
 
+    # -- hostile inputs: executed in child processes under an address-space limit -------------
+    def gen_histories(self, driver, n, types=None, seed_off=0):
+        vd = self.build()
+        out = os.path.join(self.scratch, "hist-%s-%d.ndjson" % (driver, self.seed + seed_off))
+        cmd = [vd, "gen", "-driver", driver, "-seed", str(self.seed + seed_off), "-n", str(n), "-out", out]
+        if types:
+            cmd += ["-types", ",".join(types)]
+        p = subprocess.run(cmd, capture_output=True, text=True, env=dict(os.environ, VERIF_SCHEMA=SCHEMA))
+        if p.returncode != 0:
+            raise Broken("gen %s failed: %s" % (driver, p.stderr[-2000:]))
+        return out
+
+    def spec_hostile(self, nvalues, types=None):
+        """direction A: TLC derives hostile inputs (and what the decode action does with them) from sample values"""
+        vd = self.build()
+        vals = os.path.join(self.scratch, "values-%d.ndjson" % self.seed)
+        cmd = [vd, "values", "-seed", str(self.seed), "-n", str(nvalues), "-out", vals]
+        if types:
+            cmd += ["-types", ",".join(types)]
+        p = subprocess.run(cmd, capture_output=True, text=True, env=dict(os.environ, VERIF_SCHEMA=SCHEMA))
+        if p.returncode != 0:
+            raise Broken("values failed: %s" % p.stderr[-2000:])
+        r = self.model("Hostile.tla", "Hostile.cfg", env={"VERIF_VALUES": vals}, workers=1, note="specification-generated hostile inputs")
+        reports = []
+        for line in tlc_prints(r["out"], "HOSTILE"):
+            reports += json.loads(parse_tla_string(line))
+        if not reports:
+            raise Broken("the specification generated no hostile input")
+        out = os.path.join(self.scratch, "hist-spec-hostile-%d.ndjson" % self.seed)
+        with open(out, "w") as f:
+            for rp in reports:
+                f.write(json.dumps([{"op": "load", "b": "b", "bytes": rp["w"]},
+                                    {"op": "decode", "b": "b", "o": "r", "t": rp["t"], "fresh": True, "meter": True,
+                                     "tag": "spec-hostile:%s" % ("ok" if rp["ok"] else rp["why"])}]) + "\n")
+        return out, reports
+
+    def child_trace(self, hist_path, label, shards=None, vmem_kb=1572864):
+        """run histories in child processes under ulimit -v; an aborted or hung child becomes an event"""
+        vd = self.build()
+        lines = open(hist_path).read().splitlines()
+        shards = shards or min(NCPU, max(1, len(lines) // 50))
+        parts = [lines[i::shards] for i in range(shards)]
+
+        def run_shard(k):
+            hp = "%s.shard%d" % (hist_path, k)
+            open(hp, "w").write("\n".join(parts[k]) + "\n")
+            ep = hp + ".events"
+            if os.path.exists(ep):
+                os.remove(ep)
+            start, idbase, aborted, hung = 0, k * 10000000, 0, 0
+            while start < len(parts[k]):
+                cmd = "ulimit -v %d; exec %s child -in %s -out %s -start %d -idbase %d" % (vmem_kb, vd, hp, ep, start, idbase)
+                try:
+                    p = subprocess.run(["bash", "-c", cmd], capture_output=True, text=True, timeout=1800,
+                                       env=dict(os.environ, VERIF_SCHEMA=SCHEMA, GODEBUG="madvdontneed=1"))
+                except subprocess.TimeoutExpired:
+                    raise Broken("child timed out on %s" % hp)
+                if p.returncode == 0:
+                    break
+                if p.returncode == 2 and "vdrive:" in p.stderr and "fatal error" not in p.stderr:
+                    raise Broken("child harness error: " + p.stderr[-1500:])
+                # the process died (or a call hung) inside history `idx`
+                if not os.path.exists(ep + ".progress"):
+                    raise Broken("child died before making progress: rc=%d %s" % (p.returncode, p.stderr[-1500:]))
+                idx, nid = [int(x) for x in open(ep + ".progress").read().split()]
+                ops = json.loads(parts[k][idx])
+                outcome = "hang" if p.returncode == 3 else "abort"
+                why = p.stderr.strip().splitlines()[0][:200] if p.stderr.strip() else "rc=%d" % p.returncode
+                with open(ep, "a") as f:
+                    if outcome == "hang":
+                        # events before the hanging op were flushed by the child; find the hanging op
+                        done = sum(1 for l in open(ep) if '"h":%d}' % (idx + 1) in l)
+                        ops_left = ops[done:]
+                    else:
+                        ops_left = ops
+                    for j, op in enumerate(ops_left):
+                        last = j == len(ops_left) - 1
+                        nid += 1
+                        ev = synth_event(nid, idx + 1, op, outcome if last else None, why)
+                        f.write(json.dumps(ev) + "\n")
+                if outcome == "abort":
+                    aborted += 1
+                else:
+                    hung += 1
+                start, idbase = idx + 1, nid
+            os.remove(hp)
+            for x in (ep + ".progress", ep + ".hang"):
+                if os.path.exists(x):
+                    os.remove(x)
+            return ep, aborted, hung
+
+        t0 = time.time()
+        with concurrent.futures.ThreadPoolExecutor(max_workers=shards) as ex:
+            results = list(ex.map(run_shard, range(shards)))
+        # merge shards, renumbering histories so that they are unique
+        out = os.path.join(self.scratch, "trace-%s-%d.ndjson" % (label, self.seed))
+        st = {"histories": 0, "events": 0, "types": 0, "classes": 0, "res_counts": {}, "samples": [], "aborted": 0, "hung": 0}
+        types, classes = set(), set()
+        with open(out, "w") as fo:
+            for k, (ep, ab, hu) in enumerate(results):
+                st["aborted"] += ab
+                st["hung"] += hu
+                hmap = {}
+                for line in open(ep):
+                    e = json.loads(line)
+                    if e["h"] not in hmap:
+                        st["histories"] += 1
+                        hmap[e["h"]] = st["histories"]
+                    e["h"] = hmap[e["h"]]
+                    st["events"] += 1
+                    e["id"] = st["events"]
+                    key = e["op"] + ":" + e["res"]
+                    st["res_counts"][key] = st["res_counts"].get(key, 0) + 1
+                    if e["t"]:
+                        types.add(e["t"])
+                    if e["op"] in ("decode", "prim"):
+                        classes.add((e["t"] or e["fn"], e["tag"].split(":")[0], e["res"], min(len(e["post"]), 3), json.dumps(e["args"], sort_keys=True)[:80]))
+                        if len(st["samples"]) < 3 and e["res"] != "ok":
+                            st["samples"].append(e)
+                    fo.write(json.dumps(e) + "\n")
+                os.remove(ep)
+        st["types"], st["classes"] = len(types), len(classes)
+        st["wall_s"] = round(time.time() - t0, 2)
+        return out, st
+
+    def judge(self, path, st, driver, tracespec="TraceWire.tla", cfg="TraceWire.cfg", chunk=1500, prop=None):
+        res = validate_trace(path, prop or self.prop, self.scratch, tracespec, cfg, chunk)
+        if res["nchk"] != st["events"]:
+            raise Broken("TLC validated %d events, recorder wrote %d" % (res["nchk"], st["events"]))
+        self.cov["traces_validated_against_impl"] += st["histories"]
+        self.cov["evaluations"] += st["events"]
+        self.cov["states"] += res["distinct"]
+        self.cov["transitions"] += res["generated"]
+        self.cov["trace_runs"].append({"driver": driver, "seed": self.seed, "histories": st["histories"], "events": st["events"],
+                                       "types": st["types"], "classes": st["classes"], "res_counts": st["res_counts"],
+                                       "aborted_children": st.get("aborted", 0), "hung_calls": st.get("hung", 0),
+                                       "tlc_states": res["distinct"], "rejected": len(res["bad"]), "cmd": res["cmd"]})
+        self._nontriv_add(driver, st)
+        if len(self.cov["samples"]) < 4:
+            for s in st.get("samples", [])[:2]:
+                self.cov["samples"].append({"driver": driver, "event": compact_event(s)})
+        log("  trace %-18s seed=%d  %6d histories %7d events %4d types  aborted=%d hung=%d -> TLC rejected %d" %
+            (driver, self.seed, st["histories"], st["events"], st["types"], st.get("aborted", 0), st.get("hung", 0), len(res["bad"])))
+        if res["bad"] and os.environ.get("VERIF_DEBUG"):
+            import collections
+            for k, c in collections.Counter((b["clause"], b["dev"], b["t"]) for b in res["bad"]).most_common(40):
+                log("     %5d %s" % (c, k))
+        self._classify(res["bad"], path, driver)
+        os.remove(path)
+        return res
+
     def _nontriv_add(self, driver, st):
         self.cov["distinct_nontrivial"] += st["classes"]
 
@@ -345,6 +496,23 @@ class Run:
             "FAIL" if self.violations else "PASS", self.prop, self.tier, self.seed, self.cov["states"], self.cov["transitions"],
             self.cov["traces_validated_against_impl"], self.cov["evaluations"], time.time() - self.t0))
         return 1 if self.violations else 0
+
+
+def synth_event(nid, h, op, outcome, why):
+    """an event for an op whose process died (abort) or whose call did not return (hang)"""
+    ev = {"id": nid, "op": op["op"], "b": op.get("b", ""), "o": op.get("o", ""), "t": op.get("t", ""), "k": op.get("k", 0),
+          "bytes": op.get("bytes", []), "v": {"_t": "nil"}, "vpost": {"_t": "nil"}, "res": "na", "err": "", "post": [], "out": [],
+          "alg": op.get("alg", ""), "alloc": -1, "inlen": 0, "tag": op.get("tag", ""), "from": op.get("from", ""),
+          "fresh": op.get("fresh", False), "fn": op.get("fn", ""), "args": op.get("args", {}), "ret": [], "big": False, "same": False,
+          "plen": 0, "h": h}
+    if op["op"] == "load":
+        ev["post"] = op.get("bytes", [])
+    if outcome:
+        ev["res"] = outcome
+        ev["err"] = why
+        ev["alloc"] = 1073741824 if outcome == "abort" else -1
+        ev["inlen"] = 0
+    return ev
 
 
 def compact_event(e):
